@@ -4,7 +4,7 @@
    Proofs/CatalogueInv.v.  `repaired c` = the code after fix-F-C15a.diff and fix-F-C15b.diff (fix_c free:
    both variants of IndexedStringField.__init__ are covered). *)
 From Coq Require Import ZArith List Bool.
-From EV Require Import Res Catalogue CatalogueSpec CatalogueBase CatalogueInv CatalogueRename CatalogueStep CatalogueObs CatalogueData CatalogueTrace CatalogueWitness.
+From EV Require Import Res Catalogue CatalogueSpec CatalogueBase CatalogueInv CatalogueRename CatalogueStep CatalogueObs CatalogueData CatalogueHandles CatalogueVerdicts CatalogueTrace CatalogueWitness.
 Import ListNotations.
 Open Scope Z_scope.
 
@@ -88,21 +88,24 @@ Theorem c15_fields_keep_data : forall c p s s' r f,
 Proof. exact step_keeps_data. Qed.
 Print Assumptions c15_fields_keep_data.
 
-(* ---- (7) PARTIAL trace theorem: on every history, in every step record that ./check compares with the real
-   code (run_case, handles registered by rescan), verdict 0 (names = groups) and verdict 1 (live handles keep type
-   and data) are true, and the final reopen verdict of every dataset is true.  Missing for the full statement
-   `case_ok c ops = true`: the observation-level forms of verdict 2 (effect of a rename on the handle statuses) and
-   verdict 3 (move); their state-level content is theorems (3)-(5) above, the lift to `observe_handle`
-   (completeness of the h5 path search over the two files, handle registry closed under rescan) is not done. *)
-Theorem c15_trace_inv_data_partial : forall c ops, fix_a c = true -> fix_b c = true ->
-  forall sr, In sr (fst (run_case c ops)) -> nth 0 (sr_flags sr) false = true /\ nth 1 (sr_flags sr) false = true.
-Proof. exact case_inv_data. Qed.
-Print Assumptions c15_trace_inv_data_partial.
+(* ---- (7) FULL trace theorem: everything ./check evaluates on the model side is true on every history.
+   For every history whose dataframe.move operations address the two observed files (wf_op; the harness never
+   does otherwise), every verdict of every recorded step - names = groups, live handles keep type and data, a
+   df.rename that raises leaves the whole observation unchanged and one that returns (or a move within a frame)
+   substitutes the names in the frame listing and in the handle statuses, a move across frames invalidates the old
+   handle and shows a live one at the destination with the moved type and data - and the final reopen comparison
+   of both files are true.  The recording never stops early. *)
+Theorem c15_all_verdicts_true : forall c ops,
+  fix_a c = true -> fix_b c = true -> Forall wf_op ops -> case_ok c ops = true.
+Proof. exact case_ok_true. Qed.
+Print Assumptions c15_all_verdicts_true.
 
-Theorem c15_trace_reopen_verdict : forall c ops, fix_a c = true -> fix_b c = true ->
-  forall x, In x (snd (run_case c ops)) -> snd x = true.
-Proof. exact case_reopen_ok. Qed.
-Print Assumptions c15_trace_reopen_verdict.
+Theorem c15_step_verdicts : forall c p s s' r held,
+  fix_a c = true -> Inv s -> closed s held -> (forall f, In f held -> f < next_id s) -> wf_op p ->
+  step c p s = (s', r) -> Inv s' ->
+  all_true (verdicts p (is_ok r) (observe s held) (observe s' (rescan s' held))) = true.
+Proof. exact step_verdicts. Qed.
+Print Assumptions c15_step_verdicts.
 
 (* non-vacuity examples: Proofs/CatalogueWitness.v (repaired_rename_ok, repaired_move_ok) *)
 
